@@ -62,6 +62,126 @@ def gen_jacobi(t):
     tu.add('w_jac44', 'bool& r, Matrix44<%s>& A, Matrix44<%s>& V, Vec4<%s>& Z, const %s& tol' % (E, E, E, E), 'r = jacobiRotation<0, 1, 2, 3>(A, V, Z, tol);', d=4)
     return tu
 
+def gen_measure(t):
+    """the convergence measures of the Jacobi solvers (file-local)"""
+    E = ELEM[t][0]
+    hdr = '#include "%s"\nusing namespace IMATH_INTERNAL_NAMESPACE;\n' % os.path.join(build.REPO, 'src', 'Imath', 'ImathMatrixAlgo.cpp')
+    tu = TU('c12m_' + t, header=hdr)
+    for d in (3, 4):
+        tu.add('w_off%d' % d, '%s& r, const Matrix%d%d<%s>& A' % (E, d, d, E), 'r = maxOffDiag(A);', d=d, symm=False)
+        tu.add('w_offsym%d' % d, '%s& r, const Matrix%d%d<%s>& A' % (E, d, d, E), 'r = maxOffDiagSymm(A);', d=d, symm=True)
+    return tu
+
+SWEEP_OPAQUE = ('twoSidedJacobiRotation', '14jacobiRotation', '10maxOffDiagI', '14maxOffDiagSymm')
+def gen_sweep(t):
+    """the public Jacobi drivers with the single rotations and the measures left as calls: which index pairs a sweep visits"""
+    E = ELEM[t][0]
+    hdr = '#include "%s"\nusing namespace IMATH_INTERNAL_NAMESPACE;\n' % os.path.join(build.REPO, 'src', 'Imath', 'ImathMatrixAlgo.cpp')
+    tu = TU('c12w_' + t, header=hdr, opaque=SWEEP_OPAQUE)
+    for d, V in ((3, 'Vec3'), (4, 'Vec4')):
+        M = 'Matrix%d%d<%s>' % (d, d, E)
+        tu.add('w_svd%d' % d, 'const %s& A, %s& U, %s<%s>& S, %s& V, const %s& tol' % (M, M, V, E, M, E), 'jacobiSVD(A, U, S, V, tol, false);', d=d, kind='svd')
+        tu.add('w_eig%d' % d, '%s& A, %s<%s>& S, %s& V, const %s& tol' % (M, V, E, M, E), 'jacobiEigenSolver(A, S, V, tol);', d=d, kind='eig')
+    return tu
+
+def check_sweeps(rep, ws, t):
+    """R12.sweep: a sweep of each Jacobi driver rotates every index pair {j,k}, j<k, of the matrix (a pair that is never
+    rotated keeps its off-diagonal entry: no diagonal form, no U*S*V^T = A), and the driver consults the convergence measure"""
+    import re
+    E = ELEM[t][0]
+    tu = gen_sweep(t)
+    try:
+        mod = ws.module(tu.name, tu.source(), opaque=tu.opaque, no_unroll=True)
+    except build.BuildError as e:
+        rep.ob('jacobi sweeps<%s>' % E, 'R12.sweep', UNDECIDED, str(e)[:300]); return
+    fns = {f['name']: f for f in mod['functions']}
+    for name, m in tu.meta.items():
+        d = m['d']; oid = '%s%d%d<%s>#sweep' % ('jacobiSVD' if m['kind'] == 'svd' else 'jacobiEigenSolver', d, d, E)
+        f = fns.get(name)
+        if f is None:
+            rep.ob(oid, 'R12.sweep', UNDECIDED, 'wrapper not in the module'); continue
+        pairs = set(); measures = 0; where = None; odd = []
+        for b in f['blocks']:
+            for i in b['insts']:
+                if i.get('op') not in ('call', 'invoke') or i.get('intrinsic'): continue
+                cal = i.get('callee', '')
+                if 'acobiRotation' in cal:
+                    where = where or '%s:%s' % (build.repo_rel(i.get('file', '')), i.get('line'))
+                    tm = re.findall(r'Li(\d)E', cal.split('acobiRotation')[1].split('EE')[0] + 'E')
+                    if len(tm) >= 2: jk = (int(tm[0]), int(tm[1]))
+                    else:
+                        cs = [int(o['v']) for o in i.get('ops', []) if o.get('k') == 'ci' and o.get('w') == 32]
+                        jk = tuple(cs[:2]) if len(cs) >= 2 else None
+                    if jk is None or jk[0] == jk[1]: odd.append(cal[:60])
+                    else: pairs.add(tuple(sorted(jk)))
+                elif 'maxOffDiag' in cal: measures += 1
+        want = set((j, k) for j in range(d) for k in range(j + 1, d))
+        if odd or not pairs:
+            rep.ob(oid, 'R12.sweep', UNDECIDED, 'rotation calls not recognised: %s' % (odd[:2] or 'none found'), where); continue
+        missing = sorted(want - pairs)
+        if missing:
+            rep.ob(oid, 'R12.sweep', VIOLATED, 'a sweep never rotates the index pair(s) %s: their off-diagonal entries are not annihilated' % missing, where)
+        elif measures == 0:
+            rep.ob(oid, 'R12.sweep', UNDECIDED, 'no call of a convergence measure (maxOffDiag*) in the driver: the termination argument changed', where)
+        else:
+            rep.ob(oid, 'R12.sweep', HOLDS, 'rotations over all %d index pairs per sweep; %d uses of the convergence measure' % (len(want), measures), where)
+
+def check_measures(rep, Rm, tu, t):
+    """R12.offdiag: the convergence measure is zero only if every off-diagonal entry is (maxOffDiag: all i != j;
+    maxOffDiagSymm, used on symmetric input: at least one of (i,j), (j,i) for every pair), reads no diagonal entry, and on a
+    matrix whose only non-zero entry is x it is |x|"""
+    E, sz, lt = ELEM[t]
+    for name, m in tu.meta.items():
+        d = m['d']; oid = '%s(Matrix%d%d<%s>)' % ('maxOffDiagSymm' if m['symm'] else 'maxOffDiag', d, d, E)
+        S = Rm.get(name)
+        if S is None:
+            rep.ob(oid, 'R12.offdiag', UNDECIDED, Rm.err.get(name, 'not analysed')); continue
+        where = fn_where(S.fn)
+        try:
+            o = S.out('a0', 0, sz, lt)
+            slots = {agg.slot_in('a1', i * d + j, t).id: (i, j) for i in range(d) for j in range(d)}
+            sup = set(); seen = set(); st = [o]
+            while st:
+                x = st.pop()
+                if x.id in seen: continue
+                seen.add(x.id); st.extend(x.args)
+                if x.id in slots: sup.add(slots[x.id])
+            diag = sorted(p for p in sup if p[0] == p[1])
+            if m['symm']: missing = [(i, j) for i in range(d) for j in range(i + 1, d) if (i, j) not in sup and (j, i) not in sup]
+            else: missing = [(i, j) for i in range(d) for j in range(d) if i != j and (i, j) not in sup]
+            if missing or diag:
+                rep.ob(oid, 'R12.offdiag', VIOLATED, ('the measure ignores the off-diagonal entries %s: the sweep loop stops (or never starts) while they are non-zero' % missing) if missing else 'the measure reads the diagonal entries %s' % diag, where); continue
+            bad = None
+            for (i, j) in sorted(sup):
+                x = agg.slot_in('a1', i * d + j, t)
+                # abstract evaluation with every other entry 0 and x != 0: values are 'Z' (zero) or 'A' (|x| > 0)
+                memo = {}
+                def ev(n):
+                    r = memo.get(n.id)
+                    if r is not None: return r
+                    if n.op == 'const' and T.const_value(n) == 0: r = 'Z'
+                    elif n.op == 'in': r = 'X' if n is x else 'Z'
+                    elif n.op == 'absi' or (n.op == 'call' and 'fabs' in str(n.attr)):
+                        a = ev(n.args[0]); r = 'A' if a in ('X', 'A') else 'Z'
+                    elif n.op == 'ite':
+                        c = n.args[0]; neg = False
+                        if c.op == 'not': c = c.args[0]; neg = True
+                        if c.op != 'fcmp' or c.attr not in ('olt', 'ole', 'ogt', 'oge'): raise vg.Unsupported('condition %s' % T.show(c, 2))
+                        a, b = ev(c.args[0]), ev(c.args[1])
+                        if 'X' in (a, b): raise vg.Unsupported('comparison on the signed entry')
+                        rank = {'Z': 0, 'A': 1}
+                        v = {'olt': rank[a] < rank[b], 'ole': rank[a] <= rank[b], 'ogt': rank[a] > rank[b], 'oge': rank[a] >= rank[b]}[c.attr]
+                        if neg: v = not v
+                        r = ev(n.args[1] if v else n.args[2])
+                    else: raise vg.Unsupported('operation %s in a convergence measure' % n.op)
+                    memo[n.id] = r
+                    return r
+                if ev(o) != 'A':
+                    bad = 'with A[%d][%d] = x != 0 the only non-zero entry the measure is 0, not |x|' % (i, j); break
+            rep.ob(oid, 'R12.offdiag', VIOLATED if bad else HOLDS, bad or 'covers %d off-diagonal entries, no diagonal one; one-hot value |x|' % len(sup), where)
+        except (vg.Unsupported, OverflowError) as e:
+            rep.ob(oid, 'R12.offdiag', UNDECIDED, repr(e)[:300], where)
+
 def find_call(n, sub):
     seen = set(); stack = [n]
     while stack:
@@ -80,7 +200,11 @@ def out_atoms(call, idx, n, sz, lt):
 def main(rep, ws, tier):
     types = 'f' if tier == 'quick' else 'fd'
     tuo = [gen_opaque(t) for t in types]; tui = [gen_inline(t) for t in types]; tus = [gen_shrt(t) for t in types]; tuj = [gen_jacobi(t) for t in types]
-    an = Analysed(ws, tuo + tui + tus + tuj, rep)
+    tum = [gen_measure(t) for t in types]
+    an = Analysed(ws, tuo + tui + tus + tuj + tum, rep)
+    for tm, t in zip(tum, types):
+        check_measures(rep, an[tm], tm, t)
+        check_sweeps(rep, ws, t)
     for to, ti, ts, tj, t in zip(tuo, tui, tus, tuj, types):
         R = an[to]; Ri = an[ti]; Rj = an[tj]; E, sz, lt = ELEM[t]
         def rat_all(ctx, xs): return [ctx.rat(x) for x in xs]
@@ -292,9 +416,9 @@ def main(rep, ws, tier):
                 rep.ob(oid, 'R12.gs', VIOLATED if e[0] else HOLDS, e[0] or e[1], where)
             except (P.NotPoly, PC.Undecided, vg.Unsupported, OverflowError) as e:
                 rep.ob(oid, 'R12.gs', UNDECIDED, repr(e)[:300], where)
-    rep.floor('factorisation obligations', len(rep.obs), 16 * len(types))
+    rep.floor('factorisation obligations', len(rep.obs), 24 * len(types))
     rep.assumptions += ['exact real arithmetic at a generic point; opaque callee out-parameters are free atoms', 'set* matrices as documented (C09)']
-    rep.undecided_clauses += ['jacobiSVD, jacobiEigenSolver, min/maxEigenVector, procrustesRotationAndTranslation: convergence loops over run-time data - no static argument in reach establishes U*S*V^T = A',
+    rep.undecided_clauses += ['jacobiSVD, jacobiEigenSolver, min/maxEigenVector, procrustesRotationAndTranslation: convergence loops over run-time data - no static argument in reach establishes U*S*V^T = A (R12.sweep / R12.offdiag / R12.jacobi decide necessary structural conditions only)',
                               'extractEulerXYZ / extractEulerZYX inverse-trigonometric correctness', 'near-singular inputs']
 
 def tiny(c):
